@@ -373,6 +373,7 @@ class Interp(object):
         self.t = start_time
         self.t0 = start_time
         self.requests = []      # dicts t, fn, payload
+        self.stateful_calls = []
         self.variant = variant or Variant()
         self.intrinsic = intrinsic
         self.facts = {"caught": 0, "retries": 0, "fanouts": 0, "fanout_failures": 0, "param_failures": 0,
@@ -591,6 +592,8 @@ class Interp(object):
             fn = res.rsplit(":", 1)[1]
             entered = self.t
             self.requests.append(dict(t=self.t, fn=fn, payload=copy.deepcopy(eff), state=name))
+            if fn in getattr(self.task, "stateful", ()):
+                self.stateful_calls.append((fn, json.dumps(eff, sort_keys=True, default=repr)))
             r = self.task(fn, eff)
             latency = 0.0
             if r and isinstance(r[-1], dict) and "latency" in r[-1]:
@@ -648,8 +651,10 @@ class Interp(object):
         bstart = t0
         for b0 in range(0, n, size):
             errs, bend = [], bstart
+            seen_by_job = []
             for machine, eff, extra in jobs[b0:b0 + size]:
                 self.t = bstart
+                mark = len(self.stateful_calls)
                 try:
                     out = self.run_machine(machine, eff, extra, depth + 1)
                     self.note_error_member(out, "branch-output")
@@ -658,6 +663,12 @@ class Interp(object):
                     errs.append((e, self.t))
                     outs.append(None)
                 bend = max(bend, self.t)
+                mine = set(self.stateful_calls[mark:])
+                if any(mine & other for other in seen_by_job):
+                    # the outcome of a history-dependent task called with the same payload from concurrent branches depends on
+                    # which call arrives first: the sequential reference cannot say
+                    raise Unspecified("history-dependent task called with the same payload from concurrent branches")
+                seen_by_job.append(mine)
             if errs:
                 self.facts["fanout_failures"] += 1
                 if len(errs) > 1:
